@@ -168,9 +168,11 @@ func mustLoad(root, repo, tier string, workers int, verbose bool) *World {
 	w.tier = tier
 	w.workers = workers
 	w.verbose = verbose
-	w.timeoutMs = 10000
+	// generous per-query limits: nearly every query answers in milliseconds, and a loaded machine must not turn a
+	// slow answer into an INCONCLUSIVE run
+	w.timeoutMs = 60000
 	if tier == "thorough" {
-		w.timeoutMs = 60000
+		w.timeoutMs = 120000
 		w.crossCheck = true
 		w.crossBudget = 40
 	}
